@@ -74,6 +74,11 @@ CHECKS = {
     text="Trios and quartets with planted recombinations, Mendelian conflicts and missing genotypes, reads at depth 0-6 or no phase input at all, uniform and map-based recombination costs are phased in-process; the output is checked for paternal|maternal order, exclusion of conflicting/missing variants in all members, phasing of read-free forced variants, and agreement between changes of the reported transmission bits and changes of the transmitted parental haplotype.",
     note="Trusted: the generator's pedigree model; the transmission vector as dumped by the guarded trace hook; only bit *changes* are interpreted.",
     ref="DESIGN.md section 4, C05"),
+ "C20": dict(
+    technique="property-based testing (Hypothesis): multi-chromosome / multi-family phase runs; metamorphic union-of-restricted-runs relation plus content checks against the trace hook and the VCF diff",
+    text="Inputs with 2-3 chromosomes and unrelated samples / one or two trios are phased with all list options; each list of the full run must equal the multiset union of the lists of runs restricted to one chromosome and one family; listed reads are compared with the solver-instance trace and the output VCF, changed-genotype lines with the input/output GT diff, recombination entries with accessible positions and recomputed components.",
+    note="Trusted: determinism of restricted runs (C16), the trace hook for read membership, htslib for the VCF diff.",
+    ref="DESIGN.md section 4, C20"),
 }
 
 NOT_YET = {}
